@@ -38,7 +38,7 @@ def run(rep, tier, seed, rng):
     nproj = 120 if tier == "quick" else 1500
     base = []
     from .. import directed
-    pool = directed.cases()
+    pool = directed.cases_portable()
     for k in range(nproj):
         f, c = pool[k] if k < len(pool) else genproj.gen_project(rng, focus=rng.choice(["env", "imports", "imports", "build"]))
         mods = [m for m in all_module_dicts(f) if m.get("name") and own_sources(m) and "build" not in m]
